@@ -92,33 +92,37 @@ def Server.leave (cfg : Cfg) (srv : Server) (s : Session) (p : Part) : Server ×
                 gauge := srv.gauge - 1 }, ds)
   else (srv.setSession s', ds)
 
+/-- add connection `c` to session `s` as a new participant (`NewParticipantID`, `AddParticipant`) -/
+def Session.addPart (s : Session) (c : Nat) : Session × Part :=
+  let p : Part := { pid := s.pidCur + 1, conn := c }
+  ({ s with pidCur := s.pidCur + 1, parts := s.parts ++ [p] }, p)
+
+/-- what a successful join delivers: the response, the session snapshot, the join broadcast, and the
+    module states handed out by the module pass of `handleMessage` (`s` already contains the newcomer) -/
+def joinDeliveries (cfg : Cfg) (s : Session) (p : Part) (rid ots : Nat) : List Delivery :=
+  ((p.conn, Out.joinResp rid s.id s.uuid p.pid)
+      :: gate cfg fSessionState [(p.conn, .sessionState s.pids (s.ents.map Entity.view) s.comps)])
+    ++ gate cfg fJoin (s.bcast p.pid (.joinBcast ots p.pid))
+    ++ (if cfg.vikja then [(p.conn, Out.vikjaState s.actions)] else [])
+    ++ (if cfg.odal then [(p.conn, Out.odalState s.assets)] else [])
+
 /-- the part of `HandleParticipantJoin` after any previous session has been left,
     followed by the module pass of `handleMessage` -/
 def Server.joinFresh (cfg : Cfg) (srv : Server) (c rid ots : Nat) (target : JoinTarget) (hint : Nat)
     : SRes :=
-  let found : Option Session := match target with
-    | .id n => srv.findSession n
-    | _ => none
-  match found, target with
-  | none, .id _ => (srv, [(c, .error rid ecNotFound)], .ok)
-  | none, .bogus => (srv, [(c, .error rid ecNotFound)], .ok)
-  | found, _ =>
-    let (srv, s) : Server × Session := match found with
-      | some s => (srv, s)
-      | none =>
-        let (id, g) := srv.ids.new hint
-        let s : Session := { id, uuid := srv.uuidCur + 1 }
-        ({ srv with ids := g, uuidCur := srv.uuidCur + 1, sessions := srv.sessions ++ [s],
-                    gauge := srv.gauge + 1 }, s)
-    let p : Part := { pid := s.pidCur + 1, conn := c }
-    let s := { s with pidCur := s.pidCur + 1, parts := s.parts ++ [p] }
-    let ds := (c, Out.joinResp rid s.id s.uuid p.pid)
-      :: gate cfg fSessionState [(c, .sessionState s.pids (s.ents.map Entity.view) s.comps)]
-      ++ gate cfg fJoin (s.bcast p.pid (.joinBcast ots p.pid))
-    -- module pass
-    let ds := ds ++ (if cfg.vikja then [(c, Out.vikjaState s.actions)] else [])
-                 ++ (if cfg.odal then [(c, Out.odalState s.assets)] else [])
-    (srv.setSession s, ds, .ok)
+  match target with
+  | .bogus => (srv, [(c, .error rid ecNotFound)], .ok)
+  | .id n =>
+    match srv.findSession n with
+    | none => (srv, [(c, .error rid ecNotFound)], .ok)
+    | some s =>
+      let (s', p) := s.addPart c
+      (srv.setSession s', joinDeliveries cfg s' p rid ots, .ok)
+  | .new =>
+    let (id, g) := srv.ids.new hint
+    let (s', p) := ({ id, uuid := srv.uuidCur + 1 } : Session).addPart c
+    ({ srv with ids := g, uuidCur := srv.uuidCur + 1, sessions := srv.sessions ++ [s'], gauge := srv.gauge + 1 },
+     joinDeliveries cfg s' p rid ots, .ok)
 
 def Server.join (cfg : Cfg) (srv : Server) (c rid ots : Nat) (target : JoinTarget) (hint : Nat) : SRes :=
   match srv.locate c with
